@@ -18,7 +18,8 @@ static void on_unit(bool isA, bool raw, const char *text, size_t len, bool a, bo
         (void)len; (void)a; (void)b;
         if (ngot >= 80) return;
         if (raw) {
-                if (ngot == 0 || got[ngot - 1].type != 'L') { got[ngot].type = 'L'; got[ngot].text[0] = 0; got[ngot].prod = 'A'; ngot++; listlen = 0; listbuf[0] = 0; }
+                bool have = false; for (int i = 0; i < ngot; i++) if (got[i].type == 'L') have = true;      /* one list per request; an event unit may come between two of its lines */
+                if (!have) { got[ngot].type = 'L'; got[ngot].text[0] = 0; got[ngot].prod = 'A'; ngot++; listlen = 0; listbuf[0] = 0; }
                 for (const char *p = text; *p && listlen < sizeof listbuf - 1; p++) if (*p != '\r') listbuf[listlen++] = *p;
                 listbuf[listlen] = 0; return;
         }
@@ -47,7 +48,7 @@ void chk_describe(FILE *f)
 
 /* descriptor kept outside the world so that it can be rebuilt at several capacities */
 #define MAXC 14
-static struct dcmd { char name[16]; char desc[24]; bool has_desc, only_test, disable, implicit; int grp; unsigned hmask; int nv; struct { int type, access; size_t size; char name[8]; bool named, nodata; } v[6]; } D[MAXC];
+static struct dcmd { char name[16]; char desc[24]; bool has_desc, only_test, disable, implicit; int grp; unsigned hmask; int nv; struct { int type, access; size_t size; char name[56]; bool named, nodata; } v[6]; } D[MAXC];
 static int ND, NG; static bool gdis[MAXGRP];
 static void gen_descriptor(void)
 {
@@ -60,7 +61,7 @@ static void gen_descriptor(void)
                 d->only_test = chance(12); d->disable = chance(12); d->implicit = chance(10); d->grp = i < NG ? i : (int)rn((unsigned)NG);
                 d->hmask = rn(16); if (d->implicit) d->hmask &= 4;
                 d->nv = chance(65) ? 1 + (int)rn(6) : 0;
-                for (int j = 0; j < d->nv; j++) { d->v[j].type = (int)rn(5); d->v[j].access = (int)rn(3); d->v[j].size = d->v[j].type <= CAT_VAR_NUM_HEX ? (size_t[]){ 1, 2, 4 }[rn(3)] : 1 + rn(8); d->v[j].named = chance(60); snprintf(d->v[j].name, sizeof d->v[j].name, chance(10) ? "V%d%%s" : "V%d", j); d->v[j].nodata = d->only_test && chance(30); }      /* a test-only command documents its parameters: such variables need no storage */
+                for (int j = 0; j < d->nv; j++) { d->v[j].type = (int)rn(5); d->v[j].access = (int)rn(3); d->v[j].size = d->v[j].type <= CAT_VAR_NUM_HEX ? (size_t[]){ 1, 2, 4 }[rn(3)] : 1 + rn(8); d->v[j].named = chance(60); snprintf(d->v[j].name, sizeof d->v[j].name, chance(10) ? "V%d%%s" : chance(8) ? "a_rather_long_parameter_name_number_%d_of_this_cmd" : "V%d", j); d->v[j].nodata = d->only_test && chance(30); }      /* a test-only command documents its parameters: such variables need no storage */
         }
         /* the help command comes last, in the last group */
         struct dcmd *h = &D[ND]; memset(h, 0, sizeof *h); strcpy(h->name, "#H"); h->hmask = 1; h->grp = NG - 1; ND++;
@@ -183,7 +184,24 @@ static void check_list_via(const char *helpname, const char *request)
         }
         expect[o] = 0;
         snprintf(note, sizeof note, "command list at command capacity %zu; longest reference line %zu bytes; %s", W.capA, longest, all_fit ? "all lines fit" : "a line does not fit: ERROR expected there");
-        if (!run_line(request)) { inconclusive("no quiescence"); return; }
+        /* in three cases of ten an event is being written when the list starts: a TEST event of some command with variables is triggered together with the request
+         * and the output gets stuck after its first k bytes; the list lines must come out whole all the same */
+        int evc = -1; if (chance(30)) for (size_t i = 0; i < W.ncmds; i++) if (cmd_enabled((int)i) && ref_has_vars(W.cmd[i])) { evc = (int)i; break; }
+        if (evc >= 0) {
+                static uint8_t bits[400]; size_t k = 1 + rn(12);
+                for (size_t i = 0; i < sizeof bits; i++) bits[i] = (uint8_t)(i < k || i >= k + 70);
+                in_reset(); in_puts(request); in_putc('\n'); ngot = 0; out_reset(); units_reset();
+                sch_bits(&WS, bits, sizeof bits);
+                (void)cat_trigger_unsolicited_event(W.at, W.cmd[evc], CAT_CMD_TYPE_TEST);
+                bool q = run_quiet(quiet_bound() + 20000) >= 0;
+                sch_eager(&WS);
+                if (!q) { inconclusive("no quiescence"); return; }
+                int w = 0; for (int i = 0; i < ngot; i++) { if (got[i].prod == 'U') continue; got[w++] = got[i]; }
+                ngot = w;
+                /* what the host sees is the wire, not the per-producer units: the other producer may take over only at the end of a line */
+                for (size_t i = 1; i < OUTN; i++) if (OUTP[i] != OUTP[i - 1] && OUTB[i - 1] != '\n') { viol("C19", "list-differs", "a line of the command list is torn on the wire: the %s producer cuts in at output offset %zu, in the middle of a line", OUTP[i] == 'U' ? "event" : "command", i); return; }
+                CNT("lists_started_while_an_event_is_being_written");
+        } else if (!run_line(request)) { inconclusive("no quiescence"); return; }
         CNT("list_requests"); if (request[3] == 'T') CNT("list_requests_via_test_handler");
         const char *lst = (ngot >= 1 && got[0].type == 'L') ? listbuf : "";
         int ci = (ngot >= 1 && got[0].type == 'L') ? 1 : 0;
